@@ -1,1 +1,270 @@
-From AL Require Import C18.Model C18.Spec.
+(* C18 - PCM byte codecs are exact: the statements, each closed by [exact] from C18.Proofs,
+   each followed by its assumptions; then concrete evaluations (non-vacuity). *)
+From Coq Require Import List Bool ZArith QArith Qcanon.
+From Flocq Require Import IEEE754.BinarySingleNaN IEEE754.Binary IEEE754.Bits.
+From AL Require Import Base.CaseLib C08.Model C18.Model C18.Spec C18.Proofs.
+Import ListNotations.
+Open Scope Z_scope.
+
+(* ---------------- 1. integers <-> bytes ---------------- *)
+
+(* Packing a signed integer of any width w >= 1 (all three byte orders) and unpacking it gives
+   the integer back, on exactly w bytes. *)
+Theorem C18_int_roundtrip : forall (w : nat) (o : order) (v : Z) (bs : list Z),
+  (1 <= w)%nat -> enc_int w o v = Some bs -> dec_int w o bs = v /\ length bs = w.
+Proof. exact int_roundtrip. Qed.
+Print Assumptions C18_int_roundtrip.
+
+(* Packing succeeds exactly on the signed range of the width. *)
+Theorem C18_enc_int_in_range : forall (w : nat) (o : order) (v : Z),
+  in_srange w v = true -> exists bs, enc_int w o v = Some bs.
+Proof. exact enc_int_in_range. Qed.
+Print Assumptions C18_enc_int_in_range.
+
+Theorem C18_enc_int_out_of_range : forall (w : nat) (o : order) (v : Z),
+  in_srange w v = false -> enc_int w o v = None.
+Proof. exact enc_int_out_of_range. Qed.
+Print Assumptions C18_enc_int_out_of_range.
+
+(* What is written are bytes. *)
+Theorem C18_enc_int_bytes : forall (w : nat) (o : order) (v : Z) (bs : list Z),
+  enc_int w o v = Some bs -> Forall (fun b => 0 <= b < 256) bs.
+Proof. exact enc_int_bytes. Qed.
+Print Assumptions C18_enc_int_bytes.
+
+(* The other direction: unpacking any w bytes and packing the result gives the same bytes. *)
+Theorem C18_int_roundtrip_bytes : forall (w : nat) (o : order) (bs : list Z),
+  (1 <= w)%nat -> length bs = w -> Forall (fun b => 0 <= b < 256) bs ->
+  enc_int w o (dec_int w o bs) = Some bs.
+Proof. exact int_roundtrip_bytes. Qed.
+Print Assumptions C18_int_roundtrip_bytes.
+
+(* ---------------- 2. WavStream ---------------- *)
+
+(* Decoding the file bytes of one stored sample gives the sample (8 bit: unsigned). *)
+Theorem C18_unpack_encode : forall (bits v : Z),
+  In bits [8; 16; 24; 32] -> in_wav_range bits v = true ->
+  unpack bits (le_bytes (Z.to_nat (bits / 8)) (v mod 2 ^ bits)) = v.
+Proof. exact unpack_encode. Qed.
+Print Assumptions C18_unpack_encode.
+
+(* The 24-bit path (prepend a zero byte, decode 32 bits, shift right by 8) is the 3-byte
+   little-endian two's complement decoder, for every 3-byte string. *)
+Theorem C18_unpack_24_signext : forall (bs : list Z),
+  length bs = 3%nat -> Forall (fun b => 0 <= b < 256) bs ->
+  unpack 24 bs = dec_int 3 Little bs.
+Proof. exact unpack_24_signext. Qed.
+Print Assumptions C18_unpack_24_signext.
+
+(* Reading a whole data chunk, mono or stereo, raw or normalised. *)
+Theorem C18_wav_model_encode : forall (bits : Z) (channels : nat) (keep : bool) (samples : list Z),
+  In bits [8; 16; 24; 32] -> (channels = 1 \/ channels = 2)%nat ->
+  Forall (fun v => in_wav_range bits v = true) samples ->
+  (length samples mod channels = 0)%nat ->
+  wav_model bits channels keep (wav_encode bits samples) = wav_spec bits keep samples.
+Proof. exact wav_model_encode. Qed.
+Print Assumptions C18_wav_model_encode.
+
+(* The normalised outputs lie in [-1, 1). *)
+Theorem C18_wav_norm_range : forall (bits v : Z),
+  In bits [8; 16; 24; 32] -> in_wav_range bits v = true ->
+  let q := Q2Qc ((if bits =? 8 then v - 128 else v) # Z.to_pos (2 ^ (bits - 1))) in
+  (Qcopp 1 <= q)%Qc /\ (q < 1)%Qc.
+Proof. exact wav_norm_range. Qed.
+Print Assumptions C18_wav_norm_range.
+
+(* The same in the boolean form evaluated by C18.Check.holds_wav. *)
+Theorem C18_wav_norm_range_bool : forall (bits v : Z),
+  In bits [8; 16; 24; 32] -> in_wav_range bits v = true ->
+  let q := Q2Qc ((if bits =? 8 then v - 128 else v) # Z.to_pos (2 ^ (bits - 1))) in
+  Qc_leb (qc (-1) 1) q && Qc_ltb q (qc 1 1) = true.
+Proof. exact wav_norm_range_bool. Qed.
+Print Assumptions C18_wav_norm_range_bool.
+
+(* The reader's trace: the samples, then exactly one close, as the last event. *)
+Theorem C18_wav_trace_close_once : forall (bits : Z) (channels : nat) (keep : bool) (raw : list Z),
+  let tr := wav_trace bits channels keep raw in
+  length (filter is_close tr) = 1%nat /\
+  last tr (EvSample (WInt 0)) = EvClose /\
+  (exists pre, tr = pre ++ [EvClose] /\ Forall (fun e => is_close e = false) pre /\
+               pre = map EvSample (wav_model bits channels keep raw)).
+Proof. exact wav_trace_close_once. Qed.
+Print Assumptions C18_wav_trace_close_once.
+
+(* ---------------- 3. chunks ---------------- *)
+
+(* Both strategies pack the same block list (the array loop rebuilds C08's blocks with hop = size). *)
+Theorem C18_chunks_blocks_same : forall (size : nat) (pad : Z) (xs : list Z),
+  (1 <= size)%nat ->
+  arr_fin size pad (arr_loop size [] xs) = blocks_model size size pad xs.
+Proof. exact chunks_blocks_same. Qed.
+Print Assumptions C18_chunks_blocks_same.
+
+(* Exact characterisation: struct and array give the same result iff no packed sample
+   overflows binary32 under a strict ("<" / ">") float format. *)
+Theorem C18_chunks_struct_eq_array_iff : forall (size : nat) (f : dfmt) (o : order) (pad : Z) (xs : list Z),
+  (1 <= size)%nat ->
+  (chunks_struct size f o pad xs = chunks_array size f o pad xs <->
+   (f = Ff -> struct_strict o = true ->
+    Forall (fun v => f32_overflows v = false) (padded size pad xs))).
+Proof. exact chunks_struct_eq_array_iff. Qed.
+Print Assumptions C18_chunks_struct_eq_array_iff.
+
+(* Sufficient condition on the inputs (the equality of the two strategies is NOT unconditional). *)
+Theorem C18_chunks_struct_eq_array_partial : forall (size : nat) (f : dfmt) (o : order) (pad : Z) (xs : list Z),
+  (1 <= size)%nat ->
+  (f = Ff -> struct_strict o = true ->
+   Forall (fun v => f32_overflows v = false) (pad :: xs)) ->
+  chunks_struct size f o pad xs = chunks_array size f o pad xs.
+Proof. exact chunks_struct_eq_array_partial. Qed.
+Print Assumptions C18_chunks_struct_eq_array_partial.
+
+(* Unconditional for b, h, i, d and for the native byte order. *)
+Theorem C18_chunks_struct_eq_array : forall (size : nat) (f : dfmt) (o : order) (pad : Z) (xs : list Z),
+  (1 <= size)%nat -> f <> Ff \/ struct_strict o = false ->
+  chunks_struct size f o pad xs = chunks_array size f o pad xs.
+Proof. exact chunks_struct_eq_array. Qed.
+Print Assumptions C18_chunks_struct_eq_array.
+
+(* Whenever struct succeeds, array yields exactly the same chunks. *)
+Theorem C18_chunks_struct_ok_array : forall (size : nat) (f : dfmt) (o : order) (pad : Z) (xs : list Z)
+  (chs : list (list Z)),
+  (1 <= size)%nat ->
+  chunks_struct size f o pad xs = (chs, false) ->
+  chunks_array size f o pad xs = (chs, false).
+Proof. exact chunks_struct_ok_array. Qed.
+Print Assumptions C18_chunks_struct_ok_array.
+
+(* Unpacking the concatenated chunks gives the input followed by the minimal padding; every
+   chunk has size * width bytes.  (For "d" a sample is its 64-bit pattern, hence the range.) *)
+Theorem C18_chunks_unpack : forall (size : nat) (f : dfmt) (o : order) (pad : Z) (xs : list Z)
+  (chs : list (list Z)),
+  (1 <= size)%nat ->
+  (f = Fd -> Forall (fun v => 0 <= v < 2 ^ 64) (pad :: xs)) ->
+  chunks_struct size f o pad xs = (chs, false) ->
+  unpack_all f o (concat chs) = map (stored f) (padded size pad xs) /\
+  Forall (fun ch => length ch = (size * width f)%nat) chs.
+Proof. exact chunks_unpack. Qed.
+Print Assumptions C18_chunks_unpack.
+
+Theorem C18_chunks_unpack_array : forall (size : nat) (f : dfmt) (o : order) (pad : Z) (xs : list Z)
+  (chs : list (list Z)),
+  (1 <= size)%nat ->
+  (f = Fd -> Forall (fun v => 0 <= v < 2 ^ 64) (pad :: xs)) ->
+  chunks_array size f o pad xs = (chs, false) ->
+  unpack_all f o (concat chs) = map (stored f) (padded size pad xs) /\
+  Forall (fun ch => length ch = (size * width f)%nat) chs.
+Proof. exact chunks_unpack_array. Qed.
+Print Assumptions C18_chunks_unpack_array.
+
+Theorem C18_chunks_unpack_int : forall (size : nat) (f : dfmt) (o : order) (pad : Z) (xs : list Z)
+  (chs : list (list Z)),
+  (1 <= size)%nat -> (f = Fb \/ f = Fh \/ f = Fi) ->
+  chunks_struct size f o pad xs = (chs, false) ->
+  unpack_all f o (concat chs) = padded size pad xs /\
+  Forall (fun ch => length ch = (size * width f)%nat) chs.
+Proof. exact chunks_unpack_int. Qed.
+Print Assumptions C18_chunks_unpack_int.
+
+(* The padding is minimal: the padded length is the least multiple of size >= the length. *)
+Theorem C18_padded_length : forall (size : nat) (pad : Z) (xs : list Z),
+  (1 <= size)%nat ->
+  (length (padded size pad xs) mod size = 0)%nat /\
+  (length xs <= length (padded size pad xs) < length xs + size)%nat.
+Proof. exact padded_length. Qed.
+Print Assumptions C18_padded_length.
+
+(* The hypothesis "no error" of the theorems above is met whenever the pad and every sample
+   are encodable (the condition C18.Check.encodable evaluates). *)
+Theorem C18_chunks_no_error : forall (size : nat) (f : dfmt) (o : order) (pad : Z) (xs : list Z),
+  (1 <= size)%nat ->
+  Forall (fun v => enc_sample true f o v <> None) (pad :: xs) ->
+  snd (chunks_struct size f o pad xs) = false /\
+  snd (chunks_array size f o pad xs) = false.
+Proof. exact chunks_no_error. Qed.
+Print Assumptions C18_chunks_no_error.
+
+(* A double is identified with its bit pattern (Flocq). *)
+Theorem C18_f64_bits_roundtrip : forall v : Z,
+  0 <= v < 2 ^ 64 -> bits_of_b64 (b64_of_bits v) = v.
+Proof. exact f64_bits_roundtrip. Qed.
+Print Assumptions C18_f64_bits_roundtrip.
+
+Theorem C18_f32_bits_roundtrip : forall v : Z,
+  0 <= v < 2 ^ 32 -> bits_of_b32 (b32_of_bits v) = v.
+Proof. exact f32_bits_roundtrip. Qed.
+Print Assumptions C18_f32_bits_roundtrip.
+
+(* ---------------- non-vacuity: concrete evaluations ---------------- *)
+
+Example C18_ex_dec_big : dec_int 2 Big [255; 254] = -2.
+Proof. vm_compute. reflexivity. Qed.
+Print Assumptions C18_ex_dec_big.
+
+Example C18_ex_enc_big : enc_int 2 Big (-2) = Some [255; 254].
+Proof. vm_compute. reflexivity. Qed.
+Print Assumptions C18_ex_enc_big.
+
+Example C18_ex_enc_range : enc_int 1 Little 128 = None /\ enc_int 1 Little (-128) = Some [128].
+Proof. vm_compute. split; reflexivity. Qed.
+Print Assumptions C18_ex_enc_range.
+
+Example C18_ex_unpack24_min : unpack 24 [0; 0; 128] = -8388608.
+Proof. vm_compute. reflexivity. Qed.
+Print Assumptions C18_ex_unpack24_min.
+
+Example C18_ex_unpack24_m1 : unpack 24 [255; 255; 255] = -1 /\ unpack 24 [255; 255; 127] = 8388607.
+Proof. vm_compute. split; reflexivity. Qed.
+Print Assumptions C18_ex_unpack24_m1.
+
+(* stereo 16-bit frames L=1 R=-1, L=-32768 R=32767, raw and normalised
+   (normalised outputs are shown through their reduced fraction [this]) *)
+Example C18_ex_wav_stereo :
+  wav_model 16 2 true (wav_encode 16 [1; -1; -32768; 32767]) =
+    [WInt 1; WInt (-1); WInt (-32768); WInt 32767] /\
+  wav_encode 16 [1; -1; -32768; 32767] = [1; 0; 255; 255; 0; 128; 255; 127] /\
+  map (fun o => match o with WFlt q => this q | WInt z => inject_Z z end)
+      (wav_model 16 2 false [1; 0; 255; 255; 0; 128; 255; 127]) =
+    [1 # 32768; -1 # 32768; -1 # 1; 32767 # 32768]%Q.
+Proof. vm_compute. repeat split; reflexivity. Qed.
+Print Assumptions C18_ex_wav_stereo.
+
+Example C18_ex_wav_8bit :
+  map (fun o => match o with WFlt q => this q | WInt z => inject_Z z end)
+      (wav_model 8 1 false [0; 128; 255]) = [-1 # 1; 0 # 1; 127 # 128]%Q.
+Proof. vm_compute. reflexivity. Qed.
+Print Assumptions C18_ex_wav_8bit.
+
+Example C18_ex_wav_trace : wav_trace 8 1 true [7; 9] = [EvSample (WInt 7); EvSample (WInt 9); EvClose].
+Proof. vm_compute. reflexivity. Qed.
+Print Assumptions C18_ex_wav_trace.
+
+(* four samples, size 3: the second chunk is padded with two 7s *)
+Example C18_ex_chunks_padded_tail :
+  chunks_struct 3 Fh Little 7 [1; -2; 3; 4] = ([[1; 0; 254; 255; 3; 0]; [4; 0; 7; 0; 7; 0]], false) /\
+  chunks_array 3 Fh Little 7 [1; -2; 3; 4] = ([[1; 0; 254; 255; 3; 0]; [4; 0; 7; 0; 7; 0]], false) /\
+  unpack_all Fh Little [1; 0; 254; 255; 3; 0; 4; 0; 7; 0; 7; 0] = [1; -2; 3; 4; 7; 7] /\
+  padded 3 7 [1; -2; 3; 4] = [1; -2; 3; 4; 7; 7].
+Proof. vm_compute. repeat split; reflexivity. Qed.
+Print Assumptions C18_ex_chunks_padded_tail.
+
+(* an out-of-range integer: the first chunk is yielded, then the error *)
+Example C18_ex_chunks_error : chunks_struct 2 Fb Little 0 [1; 2; 200] = ([[1; 2]], true).
+Proof. vm_compute. reflexivity. Qed.
+Print Assumptions C18_ex_chunks_error.
+
+(* 1.5 as a big-endian binary32 *)
+Example C18_ex_chunks_float :
+  chunks_struct 1 Ff Big 0 [4609434218613702656] = ([[63; 192; 0; 0]], false) /\
+  stored Ff 4609434218613702656 = 1069547520.
+Proof. vm_compute. split; reflexivity. Qed.
+Print Assumptions C18_ex_chunks_float.
+
+(* the hypothesis of C18_chunks_struct_eq_array_iff cannot be dropped: 1e39 with "<f" *)
+Example C18_ex_chunks_float_overflow :
+  f32_overflows 5190260616003865117 = true /\
+  chunks_struct 1 Ff Little 0 [5190260616003865117] = ([], true) /\
+  chunks_array 1 Ff Little 0 [5190260616003865117] = ([[0; 0; 128; 127]], false) /\
+  chunks_struct 1 Ff Native 0 [5190260616003865117] = ([[0; 0; 128; 127]], false).
+Proof. vm_compute. repeat split; reflexivity. Qed.
+Print Assumptions C18_ex_chunks_float_overflow.
